@@ -140,6 +140,9 @@ func newEventFromUntrustedJSONV2(eventJSON []byte, roomVersion IRoomVersion) (PD
 	if err := roomVersion.CheckCanonicalJSON(eventJSON); err != nil {
 		return nil, BadJSONError{err}
 	}
+	if err := checkNoUnpairedSurrogates(eventJSON); err != nil {
+		return nil, BadJSONError{err}
+	}
 	if err := checkNoDuplicateKeys(eventJSON); err != nil {
 		return nil, BadJSONError{err}
 	}
